@@ -407,3 +407,44 @@ Proof.
     + intros E A P [K|(_ & K1 & K2)] HP; [left; auto | right; auto].
     + intros Hh amb P [K|(_ & K1 & K2)] HP; [left; auto | right; auto].
 Qed.
+
+(* ---------- the minor ticks (levels below 0) ---------- *)
+(* TicksAtLevel(l < 0) on the folded positive domain: exactly the multiples j Base^k, j = 1 .. Base-1, k a
+   rounded-out exponent, that lie inside [emin, emax] *)
+Local Open Scope Z_scope.
+Lemma minor_run_In cnt : forall i step emin emax v,
+  In v (minor_run cnt i step emin emax) <->
+  exists j, i <= j < i + Z.of_nat cnt /\ v = (inject_Z j * step)%Q /\ (emin <= v)%Q /\ (v <= emax)%Q.
+Proof.
+  induction cnt as [|n IH]; intros i step emin emax v; cbn [minor_run].
+  - split; [intros [] | intros (j & H & _); lia].
+  - rewrite in_app_iff, IH. split.
+    + intros [H|(j & Hj & R)].
+      * destruct (Qleb emin (inject_Z i * step) && Qleb (inject_Z i * step) emax) eqn:E; [|destruct H].
+        destruct H as [<-|[]]. apply andb_prop in E. destruct E as [E1 E2]. apply Qleb_true in E1, E2.
+        exists i. repeat split; try assumption; lia.
+      * exists j. split; [lia | exact R].
+    + intros (j & Hj & -> & R1 & R2). destruct (Z.eq_dec j i) as [->|Hn].
+      * left. apply Qleb_true in R1, R2. rewrite R1, R2. now left.
+      * right. exists j. repeat split; try assumption; lia.
+Qed.
+Lemma minor_seq_In n : forall b f emin emax v, 1 <= b ->
+  (In v (minor_seq n b f emin emax) <->
+   exists k j, f <= k < f + Z.of_nat n /\ 1 <= j <= b - 1 /\ v = (inject_Z j * qpow b k)%Q /\ (emin <= v)%Q /\ (v <= emax)%Q).
+Proof.
+  induction n as [|n IH]; intros b f emin emax v Hb; cbn [minor_seq].
+  - split; [intros [] | intros (k & j & H & _); lia].
+  - rewrite in_app_iff, minor_run_In, (IH b (f + 1) emin emax v Hb). split.
+    + intros [(j & Hj & R)|(k & j & Hk & R)]; [exists f, j | exists k, j]; (split; [lia|]); [split; [lia | exact R] | exact R].
+    + intros (k & j & Hk & Hj & R). destruct (Z.eq_dec k f) as [->|Hn].
+      * left. exists j. split; [lia | exact R].
+      * right. exists k, j. split; [lia|]. split; [exact Hj | exact R].
+Qed.
+Theorem log_minor_ticks_spec b e emin emax ro l v : 2 <= b -> l < 0 ->
+  (In v (log_ticks_pos b e emin emax ro l) <->
+   exists k j, le_out_lo e <= k <= le_out_hi e /\ 1 <= j <= b - 1 /\ v = (inject_Z j * qpow b k)%Q /\ (emin <= v)%Q /\ (v <= emax)%Q).
+Proof.
+  intros Hb Hl. unfold log_ticks_pos. replace (l <? 0) with true by (symmetry; now apply Z.ltb_lt).
+  unfold log_first_last, cdiv. change (2 ^ 0) with 1. rewrite !Z.div_1_r.
+  rewrite minor_seq_In by lia. split; intros (k & j & Hk & R); exists k, j; (split; [lia | exact R]).
+Qed.
